@@ -11,28 +11,28 @@ COMMON_TRUSTED = [
 ]
 
 GLUE = {
-    "C01": ["glue unverified: stream lookup by id (stream::manager), packet->frame iteration in the packet spaces, retransmission scheduling, public s2n_quic::stream wrappers",
+    "C01": ["glue unverified: stream lookup by id (stream::manager), packet->frame iteration in the packet spaces, retransmission scheduling, ReceiveStream::poll_request, the macro-generated stream API beyond the polls / is_open statement covered by layer X",
             "A-aead: corrupted/truncated datagrams are removed by AEAD authentication (cryptographic assumption, FFI)"],
     "C03": ["glue unverified: SendStream::on_transmit wiring of DataSender to the packet writer, AbstractStreamManager dispatch of MAX_* frames, transport-parameter -> initial-limit plumbing in stream::manager::new"],
-    "C04": ["glue unverified: per-space frame gating (default_frame_handler! -> PROTOCOL_VIOLATION), STREAM_STATE_ERROR for unopened/wrong-direction streams (StreamManagerState), turning a returned transport::Error into CONNECTION_CLOSE (ConnectionImpl)",
+    "C04": ["glue unverified: the tag dispatch of handle_cleartext_payload (the default handlers it dispatches to are decided by layer X), STREAM_STATE_ERROR for unopened/wrong-direction streams (StreamManagerState), turning a returned transport::Error into CONNECTION_CLOSE (ConnectionImpl)",
             "call-site fact: ReceiveStreamFlowController::new is only called with initial == desired <= u32::MAX (stream/manager.rs)"],
     "C05": ["header protection / AEAD are outside the codecs (C06)"],
     "C06": ["A-aead: authenticity is AEAD unforgeability (aws-lc/ring through FFI), not verifiable here",
-            "glue unverified: that every datagram goes through unprotect -> decrypt -> is_duplicate before frame handling (ApplicationSpace::validate_and_decrypt_packet, connection_id_mapper)"],
+            "glue unverified: that every received packet is handed to validate_and_decrypt_packet (connection_id_mapper, ConnectionImpl); inside it, decrypt -> duplicate gate -> delivery is decided by layer X, header unprotection by layer F"],
     "C08": ["glue unverified: on_processed_packet is only called after successful processing (packet spaces); ack timer polled by ConnectionImpl; congestion/amplification gating of ACK-only packets"],
-    "C09": ["glue unverified: recovery::Manager orchestration beyond the contracted kernels, ConnectionImpl timers"],
+    "C09": ["glue unverified: recovery::Manager::process_acks / process_ack_range / remove_lost_packets orchestration (detect_lost_packets, on_packet_sent, on_timeout, on_packet_number_space_discarded are decided by layer X), ConnectionImpl timers"],
     "C10": ["A-libm: cbrtf is replaced by a nondeterministic model (finite, sign-preserving, |r| <= |x|+1)",
             "A-env: HybridSlowStart::use_hystart_parameter() (reads an environment variable) is stubbed by an arbitrary bool",
             "BBRv2: only the minimum-window floor functions are under contract, not the BBR state machine",
             "glue unverified: that transmission consults transmission_constraint() before writing congestion-controlled frames"],
     "C11": ["glue unverified: PTO arming while amplification-limited (recovery::Manager), invocation of the close sender only when not limited (ConnectionImpl), client Initial padding (transmission::early / connection::transmission)"],
     "C12": ["glue unverified: SendStream::on_transmit ordering of RESET vs data, stream-id allocation in stream/manager.rs, ConnectionImpl switching to the close sender"],
-    "C13": ["trusted: hashbrown/SipHash routing in ConnectionIdMapper; path-manager use of peer ids"],
+    "C13": ["trusted: hashbrown/SipHash routing in ConnectionIdMapper; PeerIdRegistry::is_active / consume_new_id_for_existing_path contracts assumed by the path::Manager layer-X job; iterator adapters visiting every registry entry"],
     "C14": ["glue unverified: SessionContext::on_transport_parameters (cid authentication against the handshake, mapping decode errors to TRANSPORT_PARAMETER_ERROR)"],
     "C15": ["harness key: an instrumented OneRttKey with symbolic limits stands in for the AEAD (A-aead); ApplicationSpace calling encrypt_packet for every 1-RTT packet is glue"],
     "C16": ["bounded one-step container obligations cover histories whose container never exceeds the stated K"],
     "C18": ["A-aead: seal/open/HMAC replaced by a harness-side recording / keyed stand-in; aws_lc_rs::constant_time::verify_slices_are_equal (FFI) is stubbed by an equality model",
-            "not under contract: the stream packet codec, control/datagram encoders (round trips timed out), path::secret::map reaction to control packets"],
+            "not under contract: the stream packet codec, control/datagram encoders (round trips timed out), path::secret::map reaction to control packets, stream::recv::State::on_cleartext_stream_packet"],
     "C19": ["A-atomics: linearizability of Mutex / fetch_update / fetch_max is assumed, the sequential contract is what is proved",
             "A-bitvec-shift_end: bitvec 1.x BitSlice::shift_end is replaced (kani::stub) by a word-level model over the same 14-word storage ('bit i moves to i+n, vacated bits are zero'); assumed dependency contract, compared with the real function only natively (897 distances x 200 contents), not by the verifier"],
 }
